@@ -28,6 +28,8 @@ pub fn lonlat_to_cell(lonlat: LonLat, resolution: i32) -> Result<u64, String> {
     if resolution < FIRST_HILBERT_RESOLUTION {
         // For low resolutions there is no Hilbert curve, so we can just return as the result is exact
         let estimate = lonlat_to_estimate(lonlat, resolution)?;
+        #[cfg(feature = "verif")]
+        crate::verif::set_lookup_branch(0);
         return serialize(&estimate);
     }
 
@@ -60,6 +62,8 @@ pub fn lonlat_to_cell(lonlat: LonLat, resolution: i32) -> Result<u64, String> {
             // Check if we have a hit, storing distance if not
             let distance = a5cell_contains_point(&estimate, lonlat)?;
             if distance > 0.0 {
+                #[cfg(feature = "verif")]
+                crate::verif::set_lookup_branch(unique_estimates.len() as i32);
                 return serialize(&estimate);
             } else {
                 cells.push((estimate, distance));
@@ -69,6 +73,8 @@ pub fn lonlat_to_cell(lonlat: LonLat, resolution: i32) -> Result<u64, String> {
 
     // As fallback, sort cells by distance and use the closest one
     cells.sort_by(|a, b| b.1.partial_cmp(&a.1).unwrap_or(std::cmp::Ordering::Equal));
+    #[cfg(feature = "verif")]
+    crate::verif::set_lookup_branch(1000);
     serialize(&cells[0].0)
 }
 
